@@ -165,6 +165,18 @@ class G:
             return "%s %s" % (p, self.gens(n, topo, 1, 3))
         if op in ("intersection_assign", "poly_hull_assign", "poly_difference_assign", "time_elapse_assign",
                   "simplify_using_context_assign", "poly_hull_assign_if_exact", "positive_time_elapse_assign"):
+            others = [y for y in same if y != x]
+            if getattr(self, "partners", False) and (not others or r.random() < 0.5):
+                # a fresh argument of the receiver's dimension and topology (often a single half-space or a
+                # slab: one- and two-piece differences, hulls with one new face), so that the operator is not
+                # applied to the receiver itself most of the time
+                o = len(dims); dims[o] = n; topos[o] = topo
+                u = r.random()
+                if u < 0.45: how = "cons %s" % self.cons(n, topo, 1, 2)
+                elif u < 0.65: how = "cons %s" % self.cons(n, topo)
+                elif u < 0.90: how = "gens %s" % self.gens(n, topo)
+                else: return [self.special(o, n, topo), "%s %d" % (p, o)]
+                return ["new %d %s %d %s" % (o, topo, n, how), "%s %d" % (p, o)]
             return "%s %d" % (p, r.choice(same))
         if op in ("refine_with_congruence", "add_congruence"):
             m = r.choice([0, 0, 1, 2, 3]) if op == "refine_with_congruence" else 0
@@ -255,14 +267,18 @@ class G:
             elif u < pobs + pq: lines.append(self.query(x, dims, topos))
             elif u < pobs + pq + 0.04:
                 o = len(dims); lines.append("copy %d %d" % (o, x)); dims[o] = dims[x]; topos[o] = topos[x]
-            else: lines.append(self.mutator(x, dims, topos, ops))
+            else:
+                m = self.mutator(x, dims, topos, ops)
+                if isinstance(m, list): lines += m
+                else: lines.append(m)
         lines.append("stall")
         lines.append("end")
         return lines
 
-def make_cases(seed, count, maxdim=3, nobj=3, steps=7, ops=None, pq=0.3, pobs=0.2, start=0, special=0.0, divbias=False):
+def make_cases(seed, count, maxdim=3, nobj=3, steps=7, ops=None, pq=0.3, pobs=0.2, start=0, special=0.0, divbias=False, partners=True):
     g = G(seed, maxdim)
     g.special_rate = special
+    g.partners = partners
     if divbias:
         g.divs = [2, 3, 5, 7, 1]
     out = []
